@@ -16,22 +16,55 @@ void h_idem(void)
   if (r) { IORA_CANARY("h_idem: idempotent"); } else { IORA_CANARY("h_idem: not idempotent"); }
 }
 
-/* ---- environment: one attempt. Outcome is arbitrary: a response, HttpFramingError, HttpRequestNotSentError, or any other exception.
- * HttpRequestNotSentError is, by its documented meaning (http_client.hpp l.65-77), the only outcome that proves no byte was sent. ---- */
+/* ---- one attempt: the contract of HttpClient::executeRequest that performRequest's proofs use (replace) and that proof "exec_contract"
+ * ENFORCES on the composition [parseUrl; acquireLease; pre-send block; request building; send+receive block] of the real text.
+ * Outcome classes: a response, HttpFramingError, HttpRequestNotSentError, or any other exception (EXC_runtime_error stands for all others). ---- */
+#define EXEC_PRE \
+__CPROVER_requires(IORA_TRUE) \
+/* X0 a new attempt never starts while an exception is pending */ \
+__CPROVER_requires(iora_exc == EXC_NONE) \
+__CPROVER_requires(G_attempts >= 0 && G_attempts < 1000 && G_possibly_sent >= 0 && G_possibly_sent < 1000 && G_attempts_after_framing >= 0 && G_attempts_after_framing < 1000 && G_attempts_after_sent >= 0 && G_attempts_after_sent < 1000 && G_send_calls >= 0 && G_send_calls < 1000) \
+__CPROVER_assigns(iora_exc, iora_exc_caught, G_attempts, G_possibly_sent, G_framing_seen, G_attempts_after_framing, G_attempts_after_sent, G_last_ok, EXEC_ATTEMPT_GHOSTS)
+#define EXEC_ENS_RETRY \
+__CPROVER_ensures(iora_exc == EXC_NONE || iora_exc == EXC_HttpFramingError || iora_exc == EXC_HttpRequestNotSentError || iora_exc == EXC_runtime_error) \
+__CPROVER_ensures(G_attempts == __CPROVER_old(G_attempts) + 1) \
+__CPROVER_ensures(G_possibly_sent == __CPROVER_old(G_possibly_sent) + (iora_exc == EXC_HttpRequestNotSentError ? 0 : 1)) \
+__CPROVER_ensures(G_framing_seen == (__CPROVER_old(G_framing_seen) || iora_exc == EXC_HttpFramingError)) \
+__CPROVER_ensures(G_attempts_after_framing == __CPROVER_old(G_attempts_after_framing) + (__CPROVER_old(G_framing_seen) ? 1 : 0)) \
+__CPROVER_ensures(G_attempts_after_sent == __CPROVER_old(G_attempts_after_sent) + (__CPROVER_old(G_possibly_sent) > 0 ? 1 : 0)) \
+__CPROVER_ensures(G_last_ok == (iora_exc == EXC_NONE)) \
+/* E1 HttpRequestNotSentError only on paths where the send stub was NOT called in this attempt */ \
+__CPROVER_ensures(iora_exc == EXC_HttpRequestNotSentError ==> G_send_calls == __CPROVER_old(G_send_calls)) \
+/* E2 the request is handed to the transport at most once per attempt */ \
+__CPROVER_ensures(G_send_calls == __CPROVER_old(G_send_calls) || G_send_calls == __CPROVER_old(G_send_calls) + 1) \
+/* E3 (documented classification) once the pre-send region is entered, a failure that is NOT reported as not-sent/framing happened at or after the send */ \
+__CPROVER_ensures((iora_exc == EXC_runtime_error && G_presend_entered) ==> G_send_calls == __CPROVER_old(G_send_calls) + 1)
+
 Response HttpClient_executeRequest_contract(HttpClient *self, iora_sv method, iora_sv url, iora_sv body, iora_hdrs headers)
-__CPROVER_requires(IORA_TRUE)
-/* X0 a new attempt never starts while an exception is pending */
-__CPROVER_requires(iora_exc == EXC_NONE)
-__CPROVER_requires(G_attempts >= 0 && G_attempts < 1000 && G_possibly_sent >= 0 && G_possibly_sent < 1000 && G_attempts_after_framing >= 0 && G_attempts_after_framing < 1000 && G_attempts_after_sent >= 0 && G_attempts_after_sent < 1000)
-__CPROVER_assigns(iora_exc, G_attempts, G_possibly_sent, G_framing_seen, G_attempts_after_framing, G_attempts_after_sent, G_last_ok)
-__CPROVER_ensures(iora_exc == EXC_NONE || iora_exc == EXC_HttpFramingError || iora_exc == EXC_HttpRequestNotSentError || iora_exc == EXC_runtime_error)
-__CPROVER_ensures(G_attempts == __CPROVER_old(G_attempts) + 1)
-__CPROVER_ensures(G_possibly_sent == __CPROVER_old(G_possibly_sent) + (iora_exc == EXC_HttpRequestNotSentError ? 0 : 1))
-__CPROVER_ensures(G_framing_seen == (__CPROVER_old(G_framing_seen) || iora_exc == EXC_HttpFramingError))
-__CPROVER_ensures(G_attempts_after_framing == __CPROVER_old(G_attempts_after_framing) + (__CPROVER_old(G_framing_seen) ? 1 : 0))
-__CPROVER_ensures(G_attempts_after_sent == __CPROVER_old(G_attempts_after_sent) + (__CPROVER_old(G_possibly_sent) > 0 ? 1 : 0))
-__CPROVER_ensures(G_last_ok == (iora_exc == EXC_NONE))
+EXEC_PRE
+EXEC_ENS_RETRY
 ;
+/* the same contract plus the connection clauses (proof "exec_contract" enforces this one; it implies the one above clause by clause) */
+Response HttpClient_executeRequest_full(HttpClient *self, iora_sv method, iora_sv url, iora_sv body, iora_hdrs headers)
+EXEC_PRE
+__CPROVER_requires(__CPROVER_is_fresh(self, sizeof(*self)) && __CPROVER_is_fresh(self->_transport, sizeof(iora_transport)))
+__CPROVER_requires(self->_config.maxResponseBytes <= EXEC_CAP_MAX && self->_config.jsonConfig.maxPayloadSize <= EXEC_CAP_MAX)
+EXEC_ENS_RETRY
+/* D1 every exceptional exit after a connection was acquired drops it before returning (it is never left in the pool) */
+__CPROVER_ensures((iora_exc != EXC_NONE && G_acquired) ==> G_dropped)
+/* D2 a response is returned only after a successful send on the acquired session, and the connection is kept for reuse ONLY IF reuse is
+ *    configured, responseRequestsClose said no, no surplus bytes / forced eviction, the body was not close-delimited, and the switch back to
+ *    Async succeeded; otherwise it was dropped before returning */
+__CPROVER_ensures(iora_exc == EXC_NONE ==> (G_acquired && G_send_ok))
+__CPROVER_ensures((iora_exc == EXC_NONE && !G_dropped) ==> (G_reuse_cfg && G_rrc_called && !G_rrc && !G_fr_force_evict && G_fr_mode != BodyMode_CloseDelimited && !G_peer_closed_body && G_async_ok))
+__CPROVER_ensures((iora_exc == EXC_NONE && (!G_reuse_cfg || G_rrc || G_fr_force_evict || G_peer_closed_body)) ==> G_dropped)
+/* D3 evicted at most once; D4 (asserted inside the transport stubs): no transport call on a dropped or foreign session, receive only after a
+ *    successful send, Async only after a completed exchange */
+__CPROVER_ensures(G_drop_calls <= 1 && (G_dropped == (G_drop_calls == 1)))
+/* D5 nothing is received unless the request was sent */
+__CPROVER_ensures(G_recv_calls > 0 ==> G_send_ok)
+;
+
 /* ensureInitialized may fail (transport start) before any attempt */
 void HttpClient_ensureInitialized_contract(HttpClient *self)
 __CPROVER_requires(IORA_TRUE && iora_exc == EXC_NONE)
@@ -42,11 +75,11 @@ __CPROVER_ensures(iora_exc == EXC_NONE || iora_exc == EXC_runtime_error)
 #define RETRY_PRE \
 __CPROVER_requires(IORA_TRUE && __CPROVER_is_fresh(self, sizeof(*self)) && __CPROVER_is_fresh(headers, sizeof(*headers)) && __CPROVER_is_fresh(iora_ret, sizeof(*iora_ret))) \
 __CPROVER_requires(method.n <= ((size_t)1 << 40) && __CPROVER_is_fresh(method.p, method.n)) \
-__CPROVER_requires(iora_exc == EXC_NONE && G_attempts == 0 && G_possibly_sent == 0 && !G_framing_seen && G_attempts_after_framing == 0 && G_attempts_after_sent == 0 && !G_last_ok && G_sleeps == 0) \
+__CPROVER_requires(iora_exc == EXC_NONE && G_attempts == 0 && G_possibly_sent == 0 && !G_framing_seen && G_attempts_after_framing == 0 && G_attempts_after_sent == 0 && !G_last_ok && G_sleeps == 0 && G_send_calls == 0) \
 __CPROVER_requires(G_idem == IDEM(method)) \
 /* stated bound on the retry budget (see RETRIES_MAX) */ \
 __CPROVER_requires(retries <= RETRIES_MAX) \
-__CPROVER_assigns(iora_exc, iora_exc_caught, G_attempts, G_possibly_sent, G_framing_seen, G_attempts_after_framing, G_attempts_after_sent, G_last_ok, G_sleeps, G_locks, *iora_ret)
+__CPROVER_assigns(iora_exc, iora_exc_caught, G_attempts, G_possibly_sent, G_framing_seen, G_attempts_after_framing, G_attempts_after_sent, G_last_ok, G_sleeps, G_locks, *iora_ret, EXEC_ATTEMPT_GHOSTS)
 
 /* proof "retry_safety": built-in checks (incl. signed overflow / shift of the back-off), frame, invariant, variant */
 void HttpClient_performRequest_safety(HttpClient *self, iora_sv method, iora_sv url, iora_sv body, const iora_hdrs *headers, int retries, Response *iora_ret)
@@ -59,6 +92,8 @@ void HttpClient_performRequest_contract(HttpClient *self, iora_sv method, iora_s
 RETRY_PRE
 /* R1  a non-idempotent request possibly reaches the wire in at most one attempt ... */
 __CPROVER_ensures(!G_idem ==> G_possibly_sent <= 1)
+/* R1w ... measured at the send stub: the request of a non-idempotent method is handed to the transport in at most one attempt */
+__CPROVER_ensures(!G_idem ==> G_send_calls <= 1)
 /* R1b ... and no attempt is started after one that possibly reached the wire */
 __CPROVER_ensures(!G_idem ==> G_attempts_after_sent == 0)
 /* R2  at most budget+1 attempts, whatever the method (a negative budget counts as 0) */
@@ -100,3 +135,92 @@ void h_search(void)
   __CPROVER_assert(got == IDEM(method), "M1 classification equals RFC 9110 9.2.2");
 }
 #endif
+
+
+/* ------------------------------------------------------------------------------------------------------------------------------
+ * environment of executeRequest: arbitrary outcomes, recorded in the per-attempt ghosts */
+SessionId HttpClient_acquireConnection(HttpClient *self, ParsedUrl u)
+{
+  (void)self; (void)u;
+  IORA_ASSERT(!G_acquired && !G_presend_entered, "one connection per attempt");
+  G_presend_entered = true;
+  int o = nondet_int();
+  if (o == 1) { iora_exc = EXC_runtime_error; return 0; }        /* connect / DNS failure: the connection (if any) is cleaned up by acquireConnection itself */
+  if (o == 2) { iora_exc = EXC_HttpFramingError; return 0; }     /* "today impossible" - kept to check that the guard does not downgrade it */
+  G_acquired = true; G_sid = nondet_u64(); return G_sid;
+}
+void HttpClient_dropConnection(HttpClient *self, iora_sv hostPort, SessionId sid)
+{
+  (void)self; (void)hostPort;
+  IORA_ASSERT(G_acquired && sid == G_sid, "dropConnection names the session acquired for this attempt");
+  IORA_ASSERT(G_drop_calls < 1000, "ghost counter");
+  G_drop_calls++; G_dropped = true;
+}
+/* frameResponse (not extracted here): may consume interim responses while headers are incomplete (data shrinks), afterwards data and
+ * bodyStart are stable and bodyStart <= data.size(); forceEvict is only ever set; may throw HttpFramingError */
+bool HttpClient_frameResponse(HttpClient *self, iora_sv method, iora_ostr *data, bool *headersDone, size_t *headerScanPos, size_t *bodyStart, Response *resp, Framing *framing, ChunkState *chunkState, bool *forceEvict, size_t effectiveCap)
+{
+  (void)self; (void)method; (void)effectiveCap;
+  if (!*headersDone) {
+    size_t n = nondet_size_t(); IORA_ASSUME(n <= data->n); data->n = n;
+    *headersDone = nondet_bool();
+    if (*headersDone) { size_t b = nondet_size_t(); IORA_ASSUME(b <= data->n); *bodyStart = b; framing->mode = nondet_int(); framing->contentLength = nondet_u64(); }
+  }
+  *headerScanPos = nondet_size_t(); resp->statusCode = nondet_int(); chunkState->pos = nondet_size_t(); chunkState->messageEnd = nondet_size_t();
+  if (nondet_bool()) *forceEvict = true;
+  G_fr_force_evict = *forceEvict; G_fr_mode = framing->mode;
+  if (nondet_bool()) { iora_exc = EXC_HttpFramingError; return false; }
+  bool done = nondet_bool();
+  if (done) { IORA_ASSUME(*headersDone && framing->mode != BodyMode_CloseDelimited); }     /* a close-delimited body completes only on PeerClosed (frameResponse returns false) */
+  return done;
+}
+bool HttpClient_responseRequestsClose_env(HttpClient *self, const Response *resp)
+{ (void)self; (void)resp; G_rrc_called = true; G_rrc = nondet_bool(); return G_rrc; }
+
+/* SEQUENCING GLUE (hand-written, trusted; guarded by plugin.py which re-checks on every run that the un-extracted regions of
+ * executeRequest contain nothing but what is written here): executeRequest = parseUrl(url); hostPort; sendTimeout; acquireLease(hostPort);
+ * SessionId sessionId{}; [pre-send block]; request building (ostringstream only); [send+receive block]. */
+Response HttpClient_executeRequest(HttpClient *self, iora_sv method, iora_sv url, iora_sv body, iora_hdrs headers)
+{
+  (void)body; (void)headers;
+  Response r = Response_DEFAULT;
+  G_presend_entered = false; G_acquired = false; G_sid = 0; G_dropped = false; G_drop_calls = 0; G_send_ok = false; G_async_ok = false; G_rrc_called = false; G_rrc = false;
+  G_fr_force_evict = false; G_fr_mode = BodyMode_CloseDelimited; G_peer_closed_body = false; G_recv_calls = 0;
+  G_reuse_cfg = self->_config.reuseConnections;
+  bool framing_before = G_framing_seen; int sent_before = G_possibly_sent;
+  ParsedUrl parsedUrl; parsedUrl.host = url; parsedUrl.port = nondet_int();
+  if (nondet_bool()) iora_exc = EXC_runtime_error;                                  /* parseUrl(url) may throw */
+  if (!iora_exc) {
+    iora_sv hostPort = url; int64_t sendTimeout = (int64_t)nondet_int();
+    if (nondet_bool()) iora_exc = EXC_runtime_error;                                /* acquireLease(hostPort) may throw */
+    if (!iora_exc) {
+      SessionId sessionId = 0;
+      HttpClient_exec_presend(self, parsedUrl, hostPort, &sessionId);
+      if (!iora_exc) {
+        /* request building */
+        HttpClient_exec_exchange(self, method, hostPort, sessionId, sendTimeout, &r);
+      }
+    }
+  }
+  /* attempt accounting: the DEFINITIONS of the retry-level ghosts in terms of the outcome */
+  G_attempts++;
+  G_possibly_sent += (iora_exc == EXC_HttpRequestNotSentError ? 0 : 1);
+  G_attempts_after_framing += (framing_before ? 1 : 0);
+  G_attempts_after_sent += (sent_before > 0 ? 1 : 0);
+  G_framing_seen = framing_before || iora_exc == EXC_HttpFramingError;
+  G_last_ok = (iora_exc == EXC_NONE);
+  return r;
+}
+void h_exec(void)
+{
+  HttpClient *c; iora_sv m, u, b; iora_hdrs h;
+  HttpClient_executeRequest(c, m, u, b, h);
+  IORA_CANARY("h_exec: returns");
+  if (iora_exc == EXC_NONE && !G_dropped) { IORA_CANARY("h_exec: response, connection kept for reuse"); }
+  if (iora_exc == EXC_NONE && G_dropped) { IORA_CANARY("h_exec: response, connection dropped"); }
+  if (iora_exc == EXC_NONE && G_peer_closed_body) { IORA_CANARY("h_exec: close-delimited body"); }
+  if (iora_exc == EXC_HttpRequestNotSentError) { IORA_CANARY("h_exec: not sent"); }
+  if (iora_exc == EXC_HttpFramingError && G_send_ok) { IORA_CANARY("h_exec: framing error after send"); }
+  if (iora_exc == EXC_HttpFramingError && !G_acquired) { IORA_CANARY("h_exec: framing error from the pre-send region is not downgraded"); }
+  if (iora_exc == EXC_runtime_error && G_send_ok) { IORA_CANARY("h_exec: failure after send"); }
+}
